@@ -104,10 +104,28 @@ def r1_layout(report, repo):
   mg = [n for n in walk_no_nested(init.node) if isinstance(n, ast.Assign) and
         dotted(n.targets[0]) == 'self.magic']
   ok = len(mg) == 1 and isinstance(mg[0].value, ast.BinOp) and isinstance(
-      mg[0].value.op, ast.BitXor) and {
-          dotted(mg[0].value.left) or norm(mg[0].value.left),
-          dotted(mg[0].value.right) or norm(mg[0].value.right)
-      } == {'self._command', '4294967295'}
+      mg[0].value.op, ast.BitXor)
+  if ok:
+    sides = [mg[0].value.left, mg[0].value.right]
+    mask = [x for x in sides if norm(x) == '4294967295']
+    other = [x for x in sides if norm(x) != '4294967295']
+    ok = len(mask) == 1 and len(other) == 1
+  if ok:
+    # the other operand is the wire command: self._command itself, or the
+    # local that was stored into it (same reaching definitions)
+    gi0 = lib.cfg(init)
+    cmd_st = [n for n in gi0.nodes if n.kind == 'stmt' and isinstance(
+        n.ast, ast.Assign) and dotted(n.ast.targets[0]) == 'self._command']
+    mg_n = gi0.nodes_of(mg[0])[0]
+    if dotted(other[0]) == 'self._command':
+      ok = len(cmd_st) == 1 and gi0.dominated_by(mg_n,
+                                                 lambda n: n is cmd_st[0])
+    else:
+      ok = len(cmd_st) == 1 and isinstance(other[0], ast.Name) and \
+          isinstance(cmd_st[0].ast.value, ast.Name) and \
+          other[0].id == cmd_st[0].ast.value.id and \
+          {id(d) for d, _ in lib.reaching_defs(gi0, mg_n, other[0].id)} == \
+          {id(d) for d, _ in lib.reaching_defs(gi0, cmd_st[0], other[0].id)}
   report.check(ok, rule, init.qualname, 'magic', init.node,
                'magic = command xor 0xFFFFFFFF')
   crc = repo.func(AM, 'AdbMessage.data_crc32')
@@ -438,13 +456,38 @@ def r4_validation(report, repo):
   gi = lib.cfg(init)
   st = [n for n in gi.nodes if n.kind == 'stmt' and isinstance(n.ast, ast.Assign)
         and dotted(n.ast.targets[0]) == 'self._command']
-  ok = len(st) == 1 and gi.dominated_by_edge(
-      st[0], lambda s, l, d: s.kind == 'test' and isinstance(
-          s.ast, ast.Compare) and dotted(s.ast.left) == 'command' and ends_with(
-              dotted(s.ast.comparators[0]) or '', 'CMD_TO_WIRE') and
-      l == ('F' if isinstance(s.ast.ops[0], ast.NotIn) else 'T'))
+  cparam = lib.param_names(init.node)[1]
+
+  def member_edge(s, l, d):
+    return s.kind == 'test' and isinstance(s.ast, ast.Compare) and len(
+        s.ast.ops) == 1 and isinstance(s.ast.ops[0], (ast.In, ast.NotIn)) and \
+        dotted(s.ast.left) == cparam and ends_with(
+            dotted(s.ast.comparators[0]) or '', 'CMD_TO_WIRE') and \
+        l == ('F' if isinstance(s.ast.ops[0], ast.NotIn) else 'T')
+  ok = len(st) == 1 and gi.dominated_by_edge(st[0], member_edge)
   tests = [n for n in gi.nodes if n.kind == 'test' and isinstance(
-      n.ast, ast.Compare) and dotted(n.ast.left) == 'command']
+      n.ast, ast.Compare) and dotted(n.ast.left) == cparam]
+  if len(st) == 1 and not ok and isinstance(st[0].ast.value, ast.Name):
+    # the other form: one `CMD_TO_WIRE.get(command)` lookup, the store
+    # dominated by the not-None edge of a test on the looked-up local
+    loc = st[0].ast.value.id
+    vals = lib.value_exprs(gi, st[0], st[0].ast.value)
+    is_get = bool(vals) and all(
+        isinstance(v, ast.Call) and last_attr(v) == 'get' and ends_with(
+            dotted(v.func.value) or '', 'CMD_TO_WIRE') and
+        len(v.args) == 1 and dotted(v.args[0]) == cparam and not v.keywords
+        for v in vals)
+
+    def none_edge(s, l, d):
+      return s.kind == 'test' and isinstance(s.ast, ast.Compare) and len(
+          s.ast.ops) == 1 and isinstance(s.ast.ops[0], (ast.Is, ast.IsNot)) \
+          and core.is_name(s.ast.left, loc) and isinstance(
+              s.ast.comparators[0], ast.Constant) and \
+          s.ast.comparators[0].value is None and \
+          l == ('F' if isinstance(s.ast.ops[0], ast.Is) else 'T')
+    ok = is_get and gi.dominated_by_edge(st[0], none_edge)
+    tests = [n for n in gi.nodes if n.kind == 'test' and isinstance(
+        n.ast, ast.Compare) and core.is_name(n.ast.left, loc)]
   ok = ok and bool(tests) and any(
       isinstance(x.ast, ast.Raise) and last_attr(x.ast.exc) ==
       'AdbProtocolError' for x in gi.nodes if x.kind == 'stmt')
